@@ -37,6 +37,10 @@ def base_shapes(tier):
                     retype(f.typ)
         retype(sh.fields)
         out.append(sh)
+    F = S.F
+    out += [S.Shape("rmix1", [F("G", "opt", [F("H", "req", [F("X", "opt", "int32"), F("Y", "req", "string")]), F("Z", "req", "int64")])], desc="opt{req{opt,req},req}"),
+            S.Shape("rmix2", [F("G", "req", [F("H", "opt", [F("X", "req", "int32"), F("Y", "opt", "string")])]), F("Z", "opt", "float64")], desc="req{opt{req,opt}},opt"),
+            S.Shape("rmix3", [F("G", "opt", [F("H", "req", [F("X", "opt", "bool")])])], desc="opt{req{opt}}")]
     return out
 
 
@@ -136,3 +140,4 @@ def run(chk, st, tier):
                             "each written with its generated writer (values: every nil/non-nil combination up to 12), then `parquetgen -parquet` regenerates struct+code from the file, the regenerated struct's column tree is compared with the model's "
                             "(struct_of_schema o schema_of, then parse_root), and the regenerated reader reads the file: records must equal the written ones. Shapes whose own generated code is broken are C05's findings and are skipped here.")
     chk.coverage["explanation"] = "regen_ok (coq/props/C15.v)."
+    chk.assumptions += ['shapes whose own generated code is broken are skipped (C05 findings)']
